@@ -75,7 +75,10 @@ pub fn run(ctx: &Ctx) {
     let a = [0xd1u8; 20]; let b = [0xd2u8; 20]; let k1 = [1u8; 32]; let k2 = [2u8; 32];
     let repeats: Vec<(&str, Vec<([u8; 20], Vec<[u8; 32]>)>)> = vec![("same-entry-twice", vec![(a, vec![k1]), (a, vec![k1])]), ("same-address-other-keys", vec![(a, vec![k1]), (a, vec![k2])]), ("same-address-apart", vec![(a, vec![k1]), (b, vec![k2]), (a, vec![k2])]),
         ("same-address-empty-keys-twice", vec![(a, vec![]), (a, vec![])]), ("same-key-twice-in-an-entry", vec![(a, vec![k1, k1])]), ("same-key-three-times", vec![(a, vec![k1, k2, k1, k1])]), ("same-key-under-two-addresses", vec![(a, vec![k1]), (b, vec![k1])]),
-        ("three-equal-entries", vec![(a, vec![k1, k2]), (a, vec![k1, k2]), (a, vec![k1, k2])]), ("entry-with-and-without-keys", vec![(a, vec![]), (a, vec![k1])])];
+        ("three-equal-entries", vec![(a, vec![k1, k2]), (a, vec![k1, k2]), (a, vec![k1, k2])]), ("entry-with-and-without-keys", vec![(a, vec![]), (a, vec![k1])]),
+        // entries for the transaction's own recipient (the template's `to`) and for the zero address
+        ("entry-for-the-recipient-no-keys", vec![(txjson::template(Kind::Eip2930, true).to.unwrap(), vec![])]), ("entry-for-the-recipient-first", vec![(txjson::template(Kind::Eip2930, true).to.unwrap(), vec![]), (a, vec![k1])]),
+        ("entry-for-the-recipient-last-with-key", vec![(a, vec![]), (txjson::template(Kind::Eip2930, true).to.unwrap(), vec![k1])]), ("entry-for-the-zero-address", vec![([0u8; 20], vec![]), (a, vec![k1])])];
     ctx.sweep("access-list-repeated-elements", "access lists with equal elements (the same address in two or three entries, adjacent and apart; the same storage key twice or three times in an entry; the same key under two addresses), 2 typed kinds: encoded in order as often as they occur", (repeats.len() * 2) as u64, |i| {
         let (label, al) = &repeats[i as usize / 2]; let (k, name) = kinds()[1 + (i % 2) as usize]; let mut tx = txjson::template(k, true); tx.access_list = al.clone();
         one("access-list-repeated-elements", i, format!("{name},repeated={label}"), &tx, &sigs()[2]);
